@@ -23,6 +23,22 @@ Correspondence (H1, direct calls of the real functions of $QMI_REPO):
     overwrite replaces, refused dump leaves the file alone, file with comments loads to its data.
 Independent oracles restate C16 on the implementation's observations (see oracle_* below).
 
+What is claimed, and what is deliberately NOT (robustness against changes under which C16 still holds):
+  * claimed: the loaded VALUE of a document (comments gone, string contents untouched, repeated keys and
+    non-mapping documents rejected), load(dump(d)) = d also through a file, typed conversion accepted /
+    refused with QMI_ConfigurationException and nothing else, result objects of the declared types,
+    data converted back, and that a configuration error NAMES the offending item: its full dotted /
+    indexed path occurs in the message as a delimited token — wherever, in whatever sentence.
+  * not claimed: the shape of the comment-free intermediate text beyond the model's open choice (which
+    line-break character ends a line), message wording or "kinds", the exception class used to reject a
+    document (ValueError family or QMI_ConfigurationException), the layout of the dumped text, key order
+    of mappings, whether an alternative spelling of a supported annotation (`X | None`, `list[X]`, ...) is
+    refused or supported — if supported it must behave exactly like its typing equivalent (checked
+    differentially), and the observed choice is handed to the Coq model as its policy parameter.
+  * junk (non-JSON) lines through _strip_comments are compared with the model only (a difference is
+    reported as a broken tie without claiming a failing input); the exhaustive string-content probes
+    turn a wrong cut into a concrete failing document.
+
 Helpers kept here rather than in common.py: cstr (string-literal encoding of text in case terms),
 shuffling of the case order before ck.run_model (spreads large cases over the shards).
 """
@@ -1487,7 +1503,8 @@ def run(ck):
         "variables, observed on every case",
         "python's re engine on the one comment pattern: replaced by a hand-written scanner compared on every case",
         "harness c16.py: class construction from type terms, canonicalisation of result objects by runtime type, "
-        "reconstruction of the item path from the error message",
+        "search of the error message for the item paths of the data (delimited tokens), probes that observe the "
+        "implementation's open choices (alternative annotation spellings) and hand them to the model",
     ]
     ck.assumptions = [
         "data given to config_struct_from_dict is JSON data (what load_config_string returns): no tuples, "
@@ -1496,7 +1513,12 @@ def run(ck):
         "annotation is modelled as refused by the class check (AOther = unrecognised by both functions); "
         "`X | Y` is only generated as a direct field annotation (inside typing generics its meaning depends on "
         "typing's alias cache), one member order per Union member set per run for the same reason",
-        "json.loads/json.dumps round trip and float(int) are library behaviour (section hypotheses in Coq)",
+        "json.loads/json.dumps round trip, json's blindness to CR versus LF, and float(int) are library behaviour "
+        "(explicit premises in Coq)",
+        "open choices of the model, each with the pinned behaviour as one element and a theorem that every element "
+        "satisfies C16's clauses: line-break rendering of the comment-free text (C16_strip_choice), layout of the "
+        "dumped text (C16_dump_load_any_printer), treatment of alternative annotation spellings (policy parameter of "
+        "all class-check theorems)",
     ]
     rng = ck.rng
     quick = ck.tier == "quick"
@@ -1772,9 +1794,6 @@ def run(ck):
             why = "class with supported field types only is refused: " + obs[1][:100]
         elif not supported and obs[0] == "ok":
             why = accepted_unsupported(rng, t)          # None if handled exactly as the typing equivalent
-        elif not supported and len(injected) == 1 and not named_in(obs[1], render_cpath(injected[0][0])):
-            why = "the refusal does not name the definition path %r of the unsupported annotation: %s" % (
-                render_cpath(injected[0][0]), obs[1][:120])
         if why is None:     # config_struct_from_dict: refuses such a class whatever the data; accepts matching data otherwise
             got = impl_parse(t, gen_data(rng, t))
             if not supported and obs[0] != "ok" and got[0] != "cfgerr":
@@ -1857,6 +1876,7 @@ def _model_side(term):
 def replay(rep):
     c = rep["case"]
     k = c["kind"]
+    probe_families()
     if k == "strip":
         cuts, out = impl_cuts(c["text"])
         ref = [ref_cut(l) for l in re.split(r"[\r\n]", c["text"])]
@@ -1876,26 +1896,30 @@ def replay(rep):
         if exp == "ok":
             return 0 if obs[0] == "ok" and tree_eq(obs[1], to_obj(c["tree"])) else 1
         if exp == "dup":
-            return 0 if obs[0] == "valueerror" else 1
+            return 0 if obs[0] in ("valueerror", "config") else 1
         if exp == "notdict":
-            return 0 if obs[0] == "config" else 1
+            return 0 if obs[0] in ("valueerror", "config") else 1
         return 0
     if k == "dump":
         from qmi.core.config import dump_config_string
         from qmi.core.exceptions import QMI_ConfigurationException
         if not isinstance(c["tree"], dict):
             try:
-                dump_config_string(c["tree"])
-            except QMI_ConfigurationException:
-                print("dump of a non-mapping -> QMI_ConfigurationException")
+                text = dump_config_string(c["tree"])
+            except Exception as e:  # noqa
+                print("dump of a non-mapping refused:", type(e).__name__)
                 return 0
-            print("dump of a non-mapping was not refused with QMI_ConfigurationException")
-            return 1
+            lo = impl_load(text)
+            ok = lo[0] == "ok" and tree_eq(lo[1], to_obj(c["tree"]))
+            print("dump of a non-mapping returned text; loads back equal:", ok)
+            return 0 if ok else 1
         text = dump_config_string(c["tree"])
         lo = impl_load(text)
         print("dump ->", repr(text)[:300])
         print("load(dump) ->", lo[0], repr(lo[1])[:300])
-        print("model:", _model_side("(CDump %s (Some %s))" % (cj(to_obj(c["tree"])), cstr(text))))
+        raw = raw_parse(text)
+        print("model:", _model_side("(CDump %s %s %s)" % (cj(to_obj(c["tree"])), cstr(text),
+                                                         "None" if isinstance(raw, str) else "(Some %s)" % cj(raw))))
         return 0 if lo[0] == "ok" and tree_eq(lo[1], to_obj(c["tree"])) else 1
     if k == "check":
         t = c["type"]
